@@ -1,5 +1,5 @@
 SPECIFICATION Spec
 CONSTANTS
   Deviations = @Deviations@
-INVARIANTS RoundTrip Authentic KeyRefusal Fresh @Emit@
+INVARIANTS RoundTrip Authentic KeyRefusal Fresh Stable @Emit@
 CHECK_DEADLOCK FALSE
